@@ -11,6 +11,7 @@
      resumed st         the state in which Resume's accept_all runs: paused := false, every listener registered. *)
 From Coq Require Import List ZArith NArith Bool.
 From AN Require Import Model.Srv Proofs.SrvInv Proofs.SrvPause Proofs.SrvPauseB Proofs.SrvFault Proofs.SrvStrand.
+From AN Require Model.SrvStop Proofs.SrvFwdFacts.
 Import ListNotations.
 
 (* 1. Once a pause has taken effect no connection is dispatched until resume — in EVERY run (any script of
@@ -147,6 +148,21 @@ Theorem C05_idempotent_resume : forall (L : Z) W kinds os f ys rest,
      handle_waker L (S (S f)) st ys = handle_waker L f (set_wq st2 (rest ++ ext) (wpend st2)) ys2).
 Proof. exact resume_resume_run. Qed.
 
+(* ---------- the server task between ServerHandle and the accept thread (server.rs: ServerInner::run / handle_cmd; model
+   Model/SrvStop.v): every pause()/resume() call reaches the accept thread's queue in call order and exactly once —
+   issued = forwarded ++ still in the command channel ++ lost, and nothing is lost before a stop has ended the command loop;
+   with the loop idle and the channel empty everything issued has been forwarded.  Together with C05_commands_in_order /
+   C05_last_command_wins (what the accept thread does with its queue) this is "commands take effect in the order issued". *)
+Theorem C05_server_forwards_in_order : forall cf ops,
+  exists lost, SrvFwdFacts.issued ops
+               = SrvFwdFacts.forwarded (SrvStop.srv_trace cf ops) ++ SrvFwdFacts.pending (SrvStop.cmdq (SrvStop.srv_final cf ops)) ++ lost /\
+               (SrvStop.is_done (SrvStop.ctl (SrvStop.srv_final cf ops)) = false -> lost = []).
+Proof. exact SrvFwdFacts.server_forwards_in_order. Qed.
+Theorem C05_server_forwards_all_when_idle : forall cf ops,
+  SrvStop.ctl (SrvStop.srv_final cf ops) = SrvStop.SIdle -> SrvStop.cmdq (SrvStop.srv_final cf ops) = [] ->
+  SrvFwdFacts.forwarded (SrvStop.srv_trace cf ops) = SrvFwdFacts.issued ops.
+Proof. exact SrvFwdFacts.server_forwards_all_when_idle. Qed.
+
 (* ---------- non-vacuity ---------- *)
 (* C05_pause_safe: limit 1, a Unix and a TCP listener.  Connection 2 arrives during the pause; a turn, a direct
    accept() call, the worker's availability notice, process_timeout, a second Pause and two Resumes follow: the
@@ -266,6 +282,14 @@ Example C05_order_example :
   wq st = [IPause; IResume; IPause] /\ paused st = false /\ err st' = None /\ paused st' = true /\ wq st' = [].
 Proof. vm_compute. repeat split. Qed.
 
+(* non-vacuity: a redundant pause followed at once by resume, both queued before the server task runs: both are forwarded, in order *)
+Example C05_forward_example :
+  let cf := SrvStop.mkSCfg 1 false in
+  let ops := [SrvStop.UOther false; SrvStop.SPoll; SrvStop.UOther false; SrvStop.UOther true; SrvStop.SPoll; SrvStop.SPoll] in
+  SrvStop.ctl (SrvStop.srv_final cf ops) = SrvStop.SIdle /\ SrvStop.cmdq (SrvStop.srv_final cf ops) = [] /\
+  SrvFwdFacts.forwarded (SrvStop.srv_trace cf ops) = [false; false; true].
+Proof. vm_compute. repeat split. Qed.
+
 Print Assumptions C05_pause_safe.
 Print Assumptions C05_registration.
 Print Assumptions C05_wakeup_in_time.
@@ -280,3 +304,5 @@ Print Assumptions C05_idempotent_resume.
 Print Assumptions C05_commands_in_order.
 Print Assumptions C05_last_command_wins.
 Print Assumptions C05_no_strand_all.
+Print Assumptions C05_server_forwards_in_order.
+Print Assumptions C05_server_forwards_all_when_idle.
